@@ -72,7 +72,10 @@ _Y = "k: \u00e9\n---\n- \U0001f600\n"
 BOUNDARY = [("yaml", b"\xff\xfe" + _Y.encode("utf-16-le")), ("yaml", b"\xfe\xff" + _Y.encode("utf-16-be")), ("yaml", _Y.encode("utf-16-le")),
             ("yaml", b"\xff\xfe\x00\x00" + _Y.encode("utf-32-le")), ("yaml", _Y.encode("utf-32-be")),
             ("yaml", b"a: 1\n...\n\n# gap\n\n---\nb: 2\n...\n# tail\n---\nc: 3\n"), ("yaml", b"- x\n...\n- y\n...\n"),
-            ("yaml", b"--- 1\n...\n%YAML 1.1\n---\n2\n")]
+            ("yaml", b"--- 1\n...\n%YAML 1.1\n---\n2\n"),
+            # detection over a failing reader, for every first byte class of MessagePack and a text of each format
+            ("msgpack", corpus.mp({"a": 1}) + corpus.mp([2, 3])), ("msgpack", corpus.mp([1, [2, "x"]])), ("msgpack", b"\xdc\x00\x02\x01\x02"),
+            ("msgpack", b"\xde\x00\x01\xa1k\xc0"), ("json", b'{"a":[1,2]}'), ("toml", b'a = 1\n[t]\nb = "x"\n'), ("yaml", b"a: [1, 2]\n")]
 
 
 def run_reader_faults(outcome, tier, seed):
@@ -92,7 +95,7 @@ def run_reader_faults(outcome, tier, seed):
         boundary = (fmt, data) in BOUNDARY
         ks = range(len(data) + 1) if (tier == "thorough" or len(data) <= 40 or boundary) else sorted(rng.sample(range(len(data) + 1), 40))
         for k in ks:
-            kind = KINDS[(k + len(reqs)) % 4] if tier == "quick" and not boundary else None
+            kind = KINDS[len(reqs) % 4] if tier == "quick" and not boundary else None
             for kd in ([kind] if kind else KINDS):
                 sched = corpus.random_sched(rng)
                 reqs.append({"id": len(reqs), "to": to, "calls": [{"input": shared.hx(data), "from": frm, "mode": "reader", "sched": sched,
